@@ -92,7 +92,7 @@ def gen_case(seed: int, idx: int):
 FIXED = [
     b"", b"\n", b"#", b"# T", b"# T\n", b"# T\n\n", b"garbage", b"garbage\n", b"# T\n- no blank line\n", b"# T\n\n- a\n", b"# T\n\n- a",
     b"# T\n\n- 240101#AB\n  * k:: v\n", b"# T\n\n- 240102 240101#AB\n  * k:: v\n", b"# T\n\no P1 foo\n    - \n  * k:: v\n",
-    b"# T\n\n- 123456 foo\n", b"# T\n\n- 241939#AB foo\n", b"# T\n\n- 240231#AB foo\n", b"# T\n\n- 2024-13-45 foo\n", b"# T\n\n- 2024-02-30 foo\n",
+    b"# T\n\n- 123456 foo\n", b"# T\n\n- 230229 foo\n", b"# T\n\no 250229#A1 foo\n", b"# T\n\n- 250301 250229#A1 foo\n", b"# T\n\n- 2023-02-29 foo\n", b"# T\n\n- 240431 foo\n", b"# T 2023-02-29\n\n- 240229#Ab leap day is fine\n", b"# T\n\n- 241939#AB foo\n", b"# T\n\n- 240231#AB foo\n", b"# T\n\n- 2024-13-45 foo\n", b"# T\n\n- 2024-02-30 foo\n",
     b"# T 2024-19-39\n\n- foo\n", b"# T\n\n######## not a header\n", b"# T\n\n-------- H4 first\n- a\n", b"# T\n\n++++++++++++++++ H3 first\n- a\n",
     b"# T\n\n- [a::b::c] foo\n", b"# T\n\n- foo [a::b::c]\n", b"# T\n\n- foo\n\n\n\n", b"# T\r\n\r\n- foo\r\n", b"\xef\xbb\xbf# T\n\n- foo\n", b"# T\n\n- caf\xc3\xa9\n",
     b"# T\n\n- foo\n  * \n", b"# T\n\n- foo\n  * k::\n", b"# T\n\n- k:: \n", b"# T\n\n- 240101#AB 240102\n", b"# T\n\no\n", b"# T\n\no P1\n", b"# T\n\n- \n", b"# T\n\n-\n",
